@@ -282,13 +282,16 @@ def _r10e(rep):
                 return w
             return None
 
-        tr = symalg.PyTranslator({"EvTokJmol": ev2kj, "free_energy": X, "cv": X, "entropy": X}, call_hook=hook, where=f"{PY}::{meth}")
+        # the local holding the weighted sum (whatever it is called): every name assigned in the method maps to X
+        summed = {t.id: X for st in ast.walk(fn) if isinstance(st, ast.Assign) for t in st.targets if isinstance(t, ast.Name)}
+        tr = symalg.PyTranslator({"EvTokJmol": ev2kj, **summed}, call_hook=hook, where=f"{PY}::{meth}")
         py_route[key] = tr.expr(rets[0].value, {})
         ok, how = symalg.is_zero(py_route[key] - X / w * ev2kj)
         rep.instance("R10e", PY, f"ThermalPropertiesBase.{meth}", core.src(rets[0]), ok,
                      f"return is not sum / sum(weights) * EvTokJmol ({how})", line=rets[0].lineno)
     # _run_py_thermal_properties: entropy and cv * 1000, fe * 1
     fn = core.find_def(PY, "ThermalProperties._run_py_thermal_properties")
+    core.require_names(fn, ["fe", "entropy", "cv", "props"], f"{PY}::_run_py_thermal_properties")
     apps = {}
     for n in ast.walk(fn):
         if isinstance(n, ast.Call) and isinstance(n.func, ast.Attribute) and n.func.attr == "append" and len(n.args) == 1:
@@ -304,6 +307,7 @@ def _r10e(rep):
                  "order of (F, S, Cv) changed", line=ret.lineno)
     # C route
     fn = core.find_def(PY, "ThermalProperties._run_c_thermal_properties")
+    core.require_names(fn, ["fe", "entropy", "cv", "props"], f"{PY}::_run_c_thermal_properties")
     stm = {core.src(s.targets[0]): s for s in fn.body if isinstance(s, ast.Assign) and len(s.targets) == 1}
     WSUM = ("np.sum(self._weights)", "self._weights.sum()", "float(np.sum(self._weights))", "sum(self._weights)", "np.sum(self._weights, dtype='double')")
     aug = [s for s in fn.body if isinstance(s, ast.AugAssign) and core.src(s.target) == "props"] + [s for s in fn.body if isinstance(s, ast.Assign) and core.src(s.targets[0]) == "props" and isinstance(s.value, ast.BinOp) and core.src(s.value.left) == "props"]
@@ -329,6 +333,13 @@ def _r10e(rep):
     # ZPE itself: (sum_q w_q * sum_modes f / 2) / sum(w) * EvTokJmol  -- compared as an open term, so a
     # vectorised rewrite is accepted as long as the factors 1/2, 1/sum(w), EvTokJmol and the weight stay
     init = core.find_def(PY, "ThermalProperties.__init__")
+    # the weight of a q-point in the zero-point sum: the loop variable bound from self._weights (by role, not by name)
+    wname = None
+    for lp in [x for x in ast.walk(init) if isinstance(x, ast.For)]:
+        if isinstance(lp.iter, ast.Call) and core.src(lp.iter.func) == "zip" and isinstance(lp.target, ast.Tuple):
+            for t_, a_ in zip(lp.target.elts, lp.iter.args):
+                if core.src(a_) == "self._weights":
+                    wname = core.src(t_)
     tr = symalg.OpenPyTranslator(where="ThermalProperties.__init__")
     env = tr.summary(init)
     zpe = env.get("self._zero_point_energy")
@@ -338,10 +349,11 @@ def _r10e(rep):
     val = cands[-1]
     sumw = symalg.open_expr("np.sum(self._weights)")
     r = sp.simplify(val * 2 * sumw / sp.Symbol("EvTokJmol"))
-    r1 = r.subs(sp.Symbol("w"), 1)
-    wdep = r.has(sp.Symbol("w")) or r.has(sp.Symbol("self._weights"))
+    wsym = sp.Symbol(wname or "w")
+    r1 = r.subs(wsym, 1)
+    wdep = r.has(wsym) or r.has(sp.Symbol("self._weights"))
     shape_ok = isinstance(r1, sp.Function) or (r1.is_Mul and False)
-    ok = wdep and shape_ok and not r.has(sp.Symbol("EvTokJmol")) and sp.simplify(r / r1) in (sp.Symbol("w"), 1)
+    ok = wdep and shape_ok and not r.has(sp.Symbol("EvTokJmol")) and sp.simplify(r / r1) in (wsym, 1)
     rep.instance("R10e", PY, "ThermalProperties.__init__", "zero_point_energy == sum_q w_q sum_modes f / 2 / sum(w) * EvTokJmol", ok,
                  f"zero-point energy is not the weighted half-frequency sum normalised by sum(weights) in kJ/mol: after removing 1/2, 1/sum(w) and EvTokJmol the term is {core.norm(str(r), 120)}", line=init.lineno)
     # kernel accumulates value * weights[i] per q and sums rows serially
